@@ -1,7 +1,7 @@
 """Registry of the checks ./check implements.  MANIFEST.json is generated from it
 (tools/gen_manifest.py)."""
 
-HOOK_COMMITS = ["cf3ff38", "68dfd22"]
+HOOK_COMMITS = ["cf3ff38", "68dfd22", "3f6de41"]
 
 COMMON_TB = ["TLC 1.8.0 (tla2tools.jar) incl. CommunityModules Json/IOUtils",
              "the Go toolchain and the harness drivers in /verif/harness",
@@ -37,7 +37,7 @@ CHECKS["C13"] = {
     "trusted_base": COMMON_TB,
 }
 
-HOOK_COMMITS = ["cf3ff38", "68dfd22"]
+HOOK_COMMITS = ["cf3ff38", "68dfd22", "3f6de41"]
 
 TC_TB = COMMON_TB + ["the in-process coordinator stand-in (harness/tc): a fake getty.Session registered through the "
                      "public OnOpen entry point; requests travel through the real GettyRemotingClient, session "
@@ -111,6 +111,15 @@ def _atrb_legs(gen_quick, gen_thorough, variants_quick, variants_thorough):
                 "gen": [("ATRollback_MC", g) for g in (gen_thorough if tier == "thorough" else gen_quick)],
                 "trace": ("ATRollback_Trace", "ATRollback_Trace.cfg"),
                 "shards": 4, "gen_timeout": 3000,
+            })
+        # written part = one nullable column (schema t_nullw): statements that change nothing but that column, to
+        # and from NULL, with and without a foreign write (StmtW = {0, 1}, initial rows NULL / 'v1')
+        for name, env in (variants_thorough if tier == "thorough" else variants_quick)[:2]:
+            out.append({
+                "name": "atrb-null-" + name, "driver": "atrb", "env": dict(env, SCHEMA="t_nullw"),
+                "gen": [("ATRollback_MC", "ATRollback_Gen_C01N.cfg")],
+                "trace": ("ATRollback_Trace", "ATRollback_Trace.cfg"),
+                "shards": 2, "gen_timeout": 3000,
             })
         return out
     return legs
